@@ -556,6 +556,65 @@ theorem emitVexEvexM_evexopt_ctx (c : Model.X86.Ctx) (opcode opReg : BitVec 32) 
   · simp only [↓reduceIte, hx1, (key _).1]
     try rfl
 
+theorem emitVexEvexM_evexopt_ctxZ (c : Model.X86.Ctx) (opcode opReg : BitVec 32) (m : Mem) (imm : BitVec 64) (n : Nat) (hpe : c.preferEvex = false) :
+    emitVexEvexM c opcode (oZMask ||| oEvex) opReg m imm n = emitVexEvexM { c with vexFlag := false } opcode oZMask opReg m imm n := by
+  have hp : ∀ b : Bool, (c.preferEvex && b) = false := by intro b; rw [hpe]; rfl
+  have e1 : extractLLMMMMM opcode (oZMask ||| oEvex) = extractLLMMMMM opcode 0#32 ||| 0x10#32 := by simp only [extractLLMMMMM, oEvex, oZMask]; bv_decide
+  have e1' : extractLLMMMMM opcode oZMask = extractLLMMMMM opcode 0#32 := by simp only [extractLLMMMMM, oEvex, oZMask]; bv_decide
+  have e3 := emitModSib_lowopt (oZMask ||| oEvex) (by decide) c
+  have e3' := emitModSib_lowopt oZMask (by decide) c
+  have e4 := emitModSib_vexFlag c
+  have e2 : ∀ x, vexEvexMPrefix c x opcode (oZMask ||| oEvex) m = vexEvexMPrefix c x opcode 0#32 m := by
+    intro x
+    have : ∀ x', vexPrep x' opcode (oZMask ||| oEvex) = vexPrep x' opcode 0#32 := by intro x'; simp only [vexPrep, oEvex, oVex3, oZMask]; bv_decide
+    simp only [vexEvexMPrefix, this]
+  have e5 : ∀ x, vexEvexMPrefix { c with vexFlag := false } x opcode oZMask m = vexEvexMPrefix c x opcode 0#32 m := by
+    intro x
+    have : ∀ x', vexPrep x' opcode oZMask = vexPrep x' opcode 0#32 := by intro x'; simp only [vexPrep, oVex3, oZMask]; bv_decide
+    simp only [vexEvexMPrefix, this]
+  have key : ∀ X : BitVec 32, vexEvexMPrefix c (X ||| 0x10#32) opcode 0#32 m = vexEvexMPrefix c (X ||| 0x80000000#32) opcode 0#32 m ∧
+      vexEvexMPrefix c (X ||| 0x10#32 ||| 0x80000000#32) opcode 0#32 m = vexEvexMPrefix c (X ||| 0x80000000#32) opcode 0#32 m := by
+    intro X
+    have a1 : ((X ||| 0x10#32) &&& 0x80DF8110#32 != 0#32) = true := by simp only [bne_iff_ne, ne_eq]; bv_decide
+    have a2 : ((X ||| 0x80000000#32) &&& 0x80DF8110#32 != 0#32) = true := by simp only [bne_iff_ne, ne_eq]; bv_decide
+    have a3 : ((X ||| 0x10#32 ||| 0x80000000#32) &&& 0x80DF8110#32 != 0#32) = true := by simp only [bne_iff_ne, ne_eq]; bv_decide
+    have w1 : evexWord (X ||| 0x10#32) opcode = evexWord (X ||| 0x80000000#32) opcode := by simp only [evexWord]; bv_decide
+    have w2 : evexWord (X ||| 0x10#32 ||| 0x80000000#32) opcode = evexWord (X ||| 0x80000000#32) opcode := by simp only [evexWord]; bv_decide
+    constructor <;> simp only [vexEvexMPrefix, a1, a2, a3, w1, w2, ↓reduceIte, if_true]
+  unfold emitVexEvexM
+  simp only [e1, e1', e2, e3, e3', e4, e5, hp, Bool.false_and, Bool.false_eq_true, ↓reduceIte, bind, Except.bind, Model.X86.Ctx.aoMask,
+    show ((oZMask ||| oEvex) &&& (oZMask ||| oER ||| oSAE) != 0#32) = true from by decide,
+    show ((oZMask ||| oEvex) &&& (oER ||| oSAE) != 0#32) = false from by decide,
+    show (oZMask &&& (oZMask ||| oER ||| oSAE) != 0#32) = true from by decide,
+    show (oZMask &&& (oER ||| oSAE) != 0#32) = false from by decide,
+    show ((oZMask ||| oEvex) &&& oZMask) = oZMask from by decide, show (oZMask &&& oZMask) = oZMask from by decide]
+  generalize ha : (if m.indexType > rtLabel then BitVec.ofNat 32 m.indexId else 0#32) = rx
+  generalize hb : (if m.baseType > rtLabel then BitVec.ofNat 32 m.baseId else 0#32) = rb
+  generalize hc : (if (m.bcst != 0) = true then 1#32 else 0#32) = bb
+  cases hvf : c.vexFlag
+  · simp only [Bool.false_eq_true, ↓reduceIte]
+    have hx2 : (opReg <<< 4 &&& 0xF980#32 ||| rx <<< 3 &&& 0x40#32 ||| rx <<< 15 &&& 0x80000#32 ||| rb <<< 2 &&& 0x20#32 |||
+          (extractLLMMMMM opcode 0#32 ||| 0x10#32) ||| c.extraId <<< 16 ||| bb <<< 20 ||| 0x80000000#32 ||| oZMask) =
+        (opReg <<< 4 &&& 0xF980#32 ||| rx <<< 3 &&& 0x40#32 ||| rx <<< 15 &&& 0x80000#32 ||| rb <<< 2 &&& 0x20#32 |||
+          extractLLMMMMM opcode 0#32 ||| c.extraId <<< 16 ||| bb <<< 20 ||| oZMask) ||| 0x10#32 ||| 0x80000000#32 := by simp only [oZMask]; bv_decide
+    have hx3 : (opReg <<< 4 &&& 0xF980#32 ||| rx <<< 3 &&& 0x40#32 ||| rx <<< 15 &&& 0x80000#32 ||| rb <<< 2 &&& 0x20#32 |||
+          extractLLMMMMM opcode 0#32 ||| c.extraId <<< 16 ||| bb <<< 20 ||| 0x80000000#32 ||| oZMask) =
+        (opReg <<< 4 &&& 0xF980#32 ||| rx <<< 3 &&& 0x40#32 ||| rx <<< 15 &&& 0x80000#32 ||| rb <<< 2 &&& 0x20#32 |||
+          extractLLMMMMM opcode 0#32 ||| c.extraId <<< 16 ||| bb <<< 20 ||| oZMask) ||| 0x80000000#32 := by simp only [oZMask]; bv_decide
+    rw [hx2, hx3, (key _).2]
+    try rfl
+  · simp only [↓reduceIte]
+    have hx1 : (opReg <<< 4 &&& 0xF980#32 ||| rx <<< 3 &&& 0x40#32 ||| rx <<< 15 &&& 0x80000#32 ||| rb <<< 2 &&& 0x20#32 |||
+          (extractLLMMMMM opcode 0#32 ||| 0x10#32) ||| c.extraId <<< 16 ||| bb <<< 20 ||| oZMask) =
+        (opReg <<< 4 &&& 0xF980#32 ||| rx <<< 3 &&& 0x40#32 ||| rx <<< 15 &&& 0x80000#32 ||| rb <<< 2 &&& 0x20#32 |||
+          extractLLMMMMM opcode 0#32 ||| c.extraId <<< 16 ||| bb <<< 20 ||| oZMask) ||| 0x10#32 := by simp only [oZMask]; bv_decide
+    have hx3 : (opReg <<< 4 &&& 0xF980#32 ||| rx <<< 3 &&& 0x40#32 ||| rx <<< 15 &&& 0x80000#32 ||| rb <<< 2 &&& 0x20#32 |||
+          extractLLMMMMM opcode 0#32 ||| c.extraId <<< 16 ||| bb <<< 20 ||| 0x80000000#32 ||| oZMask) =
+        (opReg <<< 4 &&& 0xF980#32 ||| rx <<< 3 &&& 0x40#32 ||| rx <<< 15 &&& 0x80000#32 ||| rb <<< 2 &&& 0x20#32 |||
+          extractLLMMMMM opcode 0#32 ||| c.extraId <<< 16 ||| bb <<< 20 ||| oZMask) ||| 0x80000000#32 := by simp only [oZMask]; bv_decide
+    rw [hx1, hx3, (key _).1]
+    try rfl
+
 /-- **front_cls_correct with a memory operand and `evex()`**, shape rvm: EVEX forms of instructions that also have a VEX encoding (and of the
 EVEX-only ones), every `AddrForm` instance of the EVEX-only view of the context, masking {k} -/
 theorem front_cls_correct_rvm_mem_evexopt (e : Entry) (ch : List Entry) (hch : ch ∈ rvmChunks) (he : e ∈ ch)
@@ -563,11 +622,11 @@ theorem front_cls_correct_rvm_mem_evexopt (e : Entry) (ch : List Entry) (hch : c
     (mb : BitVec 32 → BitVec 32 → BitVec 8) (sib : BitVec 32 → BitVec 32 → Option (BitVec 8)) (ds : BitVec 32 → BitVec 32 → List (BitVec 8))
     (AF : AddrForm { c with vexFlag := false } ctx m mo pfx xb aaa mb sib ds) (hsize : mo.size = size)
     (D : DecorAllowed e.rule aaa.toNat z false false)
-    (hpe : c.preferEvex = false) (hz : z = false) (hm64 : ctx.mode64 = true)
+    (hpe : c.preferEvex = false) (hm64 : ctx.mode64 = true)
     (hsz : ∀ f2, e.rule.ops[2]? = some f2 → hasMemAlt f2 size = true)
     (hids : e.rule.space = 2 ∧ reg < 32#32 ∧ vvvvv < 32#32) :
     ∃ bytes k0 k1 k2, e.kinds = [k0, k1, k2] ∧
-      emitVexEvexM c (finalOp e 0x75) oEvex (packRegVvvvv reg.toNat vvvvv.toNat) m 0 0 = .ok bytes ∧
+      emitVexEvexM c (finalOp e 0x75) (zOpt z ||| oEvex) (packRegVvvvv reg.toNat vvvvv.toNat) m 0 0 = .ok bytes ∧
       formOk ctx e.rule [.reg k0 reg.toNat, .reg k1 vvvvv.toNat, .mem mo] (decorOf aaa.toNat z false false 0) bytes = true := by
   have hok := mem_chunks_ok rvm_mem_entries_ok e ch hch he
   unfold entryOkRvmMem at hok
@@ -589,8 +648,12 @@ theorem front_cls_correct_rvm_mem_evexopt (e : Entry) (ch : List Entry) (hch : c
     obtain ⟨bytes, hb', hf⟩ := vexM_rvm_formOk_evex { c with vexFlag := false } ctx e.rule (finalOp e 0x75) reg vvvvv xb aaa z m mo pfx mb sib ds AF k0 k1 f0 f1 f2 hm64 hmode
       hr hv hxop hev' (plainKind_spec _ p0) (plainKind_spec _ p1) R D hsp A hs6 hN r0 r1 r2 hal
     refine ⟨bytes, k0, k1, k2, hkinds, ?_, hf⟩
-    rw [emitVexEvexM_evexopt_ctx c _ _ _ _ _ hpe]
-    subst hz
+    have hsw : ∀ op r mm i nn, emitVexEvexM c op (zOpt z ||| oEvex) r mm i nn = emitVexEvexM { c with vexFlag := false } op (zOpt z) r mm i nn := by
+      intro op r mm i nn
+      cases z
+      · simpa [zOpt] using emitVexEvexM_evexopt_ctx c op r mm i nn hpe
+      · simpa [zOpt] using emitVexEvexM_evexopt_ctxZ c op r mm i nn hpe
+    rw [hsw]
     rw [packRegVvvvv_eq reg vvvvv hr hv]
     exact hb'
   · simp at hok
@@ -602,11 +665,11 @@ theorem front_cls_correct_rm_mem_evexopt (e : Entry) (ch : List Entry) (hch : ch
     (mb : BitVec 32 → BitVec 32 → BitVec 8) (sib : BitVec 32 → BitVec 32 → Option (BitVec 8)) (ds : BitVec 32 → BitVec 32 → List (BitVec 8))
     (AF : AddrForm { c with vexFlag := false } ctx m mo pfx xb aaa mb sib ds) (hsize : mo.size = size)
     (D : DecorAllowed e.rule aaa.toNat z false false)
-    (hpe : c.preferEvex = false) (hz : z = false) (hm64 : ctx.mode64 = true)
+    (hpe : c.preferEvex = false) (hm64 : ctx.mode64 = true)
     (hsz : ∀ f2, e.rule.ops[1]? = some f2 → hasMemAlt f2 size = true)
     (hids : e.rule.space = 2 ∧ reg < 32#32) :
     ∃ bytes k0 k2, e.kinds = [k0, k2] ∧
-      emitVexEvexM c (finalOpM e 0x6B size) oEvex (r32 reg.toNat) m 0 0 = .ok bytes ∧
+      emitVexEvexM c (finalOpM e 0x6B size) (zOpt z ||| oEvex) (r32 reg.toNat) m 0 0 = .ok bytes ∧
       formOk ctx e.rule [.reg k0 reg.toNat, .mem mo] (decorOf aaa.toNat z false false 0) bytes = true := by
   have hok := mem_chunks_ok rm_mem_entries_ok e ch hch he
   unfold entryOkRmMem at hok
@@ -629,8 +692,12 @@ theorem front_cls_correct_rm_mem_evexopt (e : Entry) (ch : List Entry) (hch : ch
     obtain ⟨bytes, hb', hf⟩ := vexM_rm_formOk_evex { c with vexFlag := false } ctx e.rule (finalOpM e 0x6B size) reg xb aaa z m mo pfx mb sib ds AF k0 f0 f2 hm64 hmode
       hr hxop hev' (plainKind_spec _ p0) R D hsp A hs6 hN r0 r2 hal
     refine ⟨bytes, k0, k2, hkinds, ?_, hf⟩
-    rw [emitVexEvexM_evexopt_ctx c _ _ _ _ _ hpe]
-    subst hz
+    have hsw : ∀ op r mm i nn, emitVexEvexM c op (zOpt z ||| oEvex) r mm i nn = emitVexEvexM { c with vexFlag := false } op (zOpt z) r mm i nn := by
+      intro op r mm i nn
+      cases z
+      · simpa [zOpt] using emitVexEvexM_evexopt_ctx c op r mm i nn hpe
+      · simpa [zOpt] using emitVexEvexM_evexopt_ctxZ c op r mm i nn hpe
+    rw [hsw]
     rw [e0] at hb'
     simpa [r32, zOpt] using hb'
   · simp at hok
@@ -642,12 +709,12 @@ theorem front_cls_correct_rvmi_mem_evexopt (e : Entry) (ch : List Entry) (hch : 
     (mb : BitVec 32 → BitVec 32 → BitVec 8) (sib : BitVec 32 → BitVec 32 → Option (BitVec 8)) (ds : BitVec 32 → BitVec 32 → List (BitVec 8))
     (AF : AddrForm { c with vexFlag := false } ctx m mo pfx xb aaa mb sib ds) (hsize : mo.size = size)
     (D : DecorAllowed e.rule aaa.toNat z false false)
-    (hpe : c.preferEvex = false) (hz : z = false) (hm64 : ctx.mode64 = true)
+    (hpe : c.preferEvex = false) (hm64 : ctx.mode64 = true)
     (hsz : ∀ f2, e.rule.ops[2]? = some f2 → hasMemAlt f2 size = true)
     (himm : ∀ f3, e.rule.ops[3]? = some f3 → formOpMatches e.rule.oszEff f3 (.imm imm) = true)
     (hids : e.rule.space = 2 ∧ reg < 32#32 ∧ vvvvv < 32#32) :
     ∃ bytes k0 k1 k2, e.kinds = [k0, k1, k2] ∧
-      emitVexEvexM c (finalOp e 0x7C) oEvex (packRegVvvvv reg.toNat vvvvv.toNat) m imm 1 = .ok bytes ∧
+      emitVexEvexM c (finalOp e 0x7C) (zOpt z ||| oEvex) (packRegVvvvv reg.toNat vvvvv.toNat) m imm 1 = .ok bytes ∧
       formOk ctx e.rule [.reg k0 reg.toNat, .reg k1 vvvvv.toNat, .mem mo, .imm imm] (decorOf aaa.toNat z false false 0) bytes = true := by
   have hok := mem_chunks_ok rvmi_mem_entries_ok e ch hch he
   unfold entryOkRvmiMem at hok
@@ -670,8 +737,12 @@ theorem front_cls_correct_rvmi_mem_evexopt (e : Entry) (ch : List Entry) (hch : 
     obtain ⟨bytes, hb', hf⟩ := vexM_rvmi_formOk_evex { c with vexFlag := false } ctx e.rule (finalOp e 0x7C) reg vvvvv xb aaa z m mo pfx mb sib ds AF k0 k1 f0 f1 f2 hm64 hmode
       hr hv hxop hev' (plainKind_spec _ p0) (plainKind_spec _ p1) R D f3 imm r3 hib hsp A hs6 hN r0 r1 r2 hal
     refine ⟨bytes, k0, k1, k2, hkinds, ?_, hf⟩
-    rw [emitVexEvexM_evexopt_ctx c _ _ _ _ _ hpe]
-    subst hz
+    have hsw : ∀ op r mm i nn, emitVexEvexM c op (zOpt z ||| oEvex) r mm i nn = emitVexEvexM { c with vexFlag := false } op (zOpt z) r mm i nn := by
+      intro op r mm i nn
+      cases z
+      · simpa [zOpt] using emitVexEvexM_evexopt_ctx c op r mm i nn hpe
+      · simpa [zOpt] using emitVexEvexM_evexopt_ctxZ c op r mm i nn hpe
+    rw [hsw]
     rw [packRegVvvvv_eq reg vvvvv hr hv]
     exact hb'
   · simp at hok
@@ -683,12 +754,12 @@ theorem front_cls_correct_rmi_mem_evexopt (e : Entry) (ch : List Entry) (hch : c
     (mb : BitVec 32 → BitVec 32 → BitVec 8) (sib : BitVec 32 → BitVec 32 → Option (BitVec 8)) (ds : BitVec 32 → BitVec 32 → List (BitVec 8))
     (AF : AddrForm { c with vexFlag := false } ctx m mo pfx xb aaa mb sib ds) (hsize : mo.size = size)
     (D : DecorAllowed e.rule aaa.toNat z false false)
-    (hpe : c.preferEvex = false) (hz : z = false) (hm64 : ctx.mode64 = true)
+    (hpe : c.preferEvex = false) (hm64 : ctx.mode64 = true)
     (hsz : ∀ f2, e.rule.ops[1]? = some f2 → hasMemAlt f2 size = true)
     (himm : ∀ f3, e.rule.ops[2]? = some f3 → formOpMatches e.rule.oszEff f3 (.imm imm) = true)
     (hids : e.rule.space = 2 ∧ reg < 32#32) :
     ∃ bytes k0 k2, e.kinds = [k0, k2] ∧
-      emitVexEvexM c (finalOpM e 0x71 size) oEvex (r32 reg.toNat) m imm 1 = .ok bytes ∧
+      emitVexEvexM c (finalOpM e 0x71 size) (zOpt z ||| oEvex) (r32 reg.toNat) m imm 1 = .ok bytes ∧
       formOk ctx e.rule [.reg k0 reg.toNat, .mem mo, .imm imm] (decorOf aaa.toNat z false false 0) bytes = true := by
   have hok := mem_chunks_ok rmi_mem_entries_ok e ch hch he
   unfold entryOkRmiMem at hok
@@ -712,8 +783,12 @@ theorem front_cls_correct_rmi_mem_evexopt (e : Entry) (ch : List Entry) (hch : c
     obtain ⟨bytes, hb', hf⟩ := vexM_rmi_formOk_evex { c with vexFlag := false } ctx e.rule (finalOpM e 0x71 size) reg xb aaa z m mo pfx mb sib ds AF k0 f0 f2 hm64 hmode
       hr hxop hev' (plainKind_spec _ p0) R D f3 imm r3 hib hsp A hs6 hN r0 r2 hal
     refine ⟨bytes, k0, k2, hkinds, ?_, hf⟩
-    rw [emitVexEvexM_evexopt_ctx c _ _ _ _ _ hpe]
-    subst hz
+    have hsw : ∀ op r mm i nn, emitVexEvexM c op (zOpt z ||| oEvex) r mm i nn = emitVexEvexM { c with vexFlag := false } op (zOpt z) r mm i nn := by
+      intro op r mm i nn
+      cases z
+      · simpa [zOpt] using emitVexEvexM_evexopt_ctx c op r mm i nn hpe
+      · simpa [zOpt] using emitVexEvexM_evexopt_ctxZ c op r mm i nn hpe
+    rw [hsw]
     rw [e0] at hb'
     simpa [r32, zOpt] using hb'
   · simp at hok
